@@ -14,6 +14,7 @@ RULE = ("(a) stub learner (O(1) per call, named like the real class): horizons {
 ASSUMPTIONS = [
     "after the repair of POO's start condition (fix: f16bd14) every rhomax in (0,1) starts; small rhomax are part of the workload",
     "grid membership: rho == rhomax^(2N/(2i+1)) for some N in {2,4,..,65536}, 0 <= i < N, to rel. 1e-12",
+    "rewards whose partial sums are finite in double precision (|r| <= 1e300 / n): beyond that no floating-point form of the running mean equals 'the arithmetic mean of the rewards received' (seeded change C10m lives there and is not judged)",
 ]
 FLOOR = {"poo_rounds_checked": {"quick": 120000, "thorough": 960000},
          "poo_scores_compared": {"quick": 500000, "thorough": 4000000},
